@@ -193,6 +193,14 @@ fn limit_sets(q_inner: &Joints, weights: &[f64]) -> Vec<Limits> {
         f[5] = c[5] + 0.1;
         t[5] = c[5] + 0.9;
         out.push(Limits { from: f, to: t, weight: w });
+        // a narrow J4 window with J6 free: a previous vector outside it can still lead to a recovered answer inside
+        let mut f = [-3.0; 6];
+        let mut t = [3.0; 6];
+        f[3] = c[3] - 0.1;
+        t[3] = c[3] + 0.1;
+        f[5] = 0.0;
+        t[5] = 0.0;
+        out.push(Limits { from: f, to: t, weight: w });
     }
     out
 }
@@ -246,8 +254,12 @@ pub fn run(ctx: &Ctx) -> Report {
         let mut prev2 = q;
         prev2[3] += 0.3;
         prev2[5] -= 0.3;
+        // J4 outside the narrow window, J6 such that sharing the difference brings J4 back inside (by 0.25 rad each)
+        let mut prev3 = q;
+        prev3[3] -= 0.3;
+        prev3[5] -= 0.2;
         for entry in ENTRIES {
-            for prev in [q, prev2, CONSTRAINT_CENTERED] {
+            for prev in [q, prev2, prev3, CONSTRAINT_CENTERED] {
                 if !entry.uses_prev() && prev[0].to_bits() != q[0].to_bits() {
                     continue;
                 }
@@ -267,7 +279,7 @@ pub fn run(ctx: &Ctx) -> Report {
     rep.traces_validated = rep.transitions;
     rep.rule = "breadth-first enumeration of wrapper stacks over {tool, base, frame, parallelogram} to the stated depth around a constrained OPW robot \
                 (dof 5 and 6) x poses (regular and wrist-singular) x limit sets {window, wrapping window, wide, from==to on J1/J4/J6, window excluding \
-                everything, J4/J6 windows around the singular recovery} x weights x entry points x previous {solution, perturbed J4/J6, \
+                everything, J4/J6 windows around the singular recovery, narrow J4 window with J6 free} x weights x entry points x previous {solution, perturbed J4/J6 (two ways, one outside the limits), \
                 CONSTRAINT_CENTERED}; oracle: answers == {u in answers of the same stack without limits : arc membership accepts the wrapped robot's \
                 joint vector}, both inclusions, mod 2pi; constraints() delegated field by field; signature = (entry, dof, kept of total)".into();
     rep.set("axes", json!({"stacks": stacks.len(), "robots": robots.len(), "poses": thetas.len(), "limit_sets": n_lim}));
